@@ -30,6 +30,9 @@ def populate(shape, variant):
     if variant in (3, 4) and len(nodes) > 1:
         g["ns"] = [["p", "urn:u1"], ["q", "urn:u3"]]
         g["post"] = [["remove_namespace", 1, "q"]] if variant == 3 else [["set_nsmap_single", 1, {"r": "urn:r"}]]
+    if variant == 5:
+        # one node of the tree has been taken out of the registry (delete_node_instance(id, children=False)) before copying
+        g["post"] = [["unregister", len(nodes) - 1]]
     if variant == 2:
         for n in nodes:
             n["attrs"] = []
@@ -51,6 +54,8 @@ def build(g):
             nodes[op[1]].remove_namespace(op[2])
         elif op[0] == "set_nsmap_single":
             nodes[op[1]].set_nsmap(dict(op[2]), False)
+        elif op[0] == "unregister":
+            Node.delete_node_instance(nodes[op[1]].id, children=False)
     return t
 
 
@@ -95,7 +100,10 @@ def check_copy(g, cpath, acc):
         if Node.get_node_instance(x.id) is not x:
             bad("copy_not_registered", "get_node_instance(id) is the copy node", x.id)
             break
-    for x in gtree.preorder(T):
+    unreg = {op[1] for op in g.get("post", []) if op[0] == "unregister"}
+    for i, x in enumerate(gtree.preorder(T)):
+        if i in unreg:
+            continue
         if Node.get_node_instance(x.id) is not x:
             bad("original_unregistered", "original nodes stay registered", x.id)
             break
@@ -110,7 +118,9 @@ def check_copy(g, cpath, acc):
         if len(set(all_ids)) != len(all_ids):
             bad("copy_ids_not_fresh", "ids of a second copy / a copy of the copy are fresh too", "collision")
         for tree in (C, C2, C3, T):
-            for x in gtree.preorder(tree):
+            for i, x in enumerate(gtree.preorder(tree)):
+                if tree is T and i in unreg:
+                    continue
                 if Node.get_node_instance(x.id) is not x:
                     bad("copy_not_registered", "every copy and the original stay registered", x.id)
                     break
@@ -173,7 +183,7 @@ def explore(tier):
     maxn = 5 if tier == "quick" else 7
     items = []
     for s in gtree.shapes_upto(maxn):
-        for variant in (0, 1, 2, 3, 4):
+        for variant in (0, 1, 2, 3, 4, 5):
             if variant >= 3 and gtree.gsize(s) < 2:
                 continue
             g = populate(s, variant)
